@@ -3,7 +3,9 @@ CONSTANTS
   Regs <- TraceRegs
   TU = 600
   TA = 21600
-  MaxT = 0
+  MaxT = 600000
+  TickSteps = {250, 500, 21000}
+  DupMode = "ignore"
   ClearFirst = TRUE
 INVARIANTS EveryAnnouncementAccepted DetectorOutlivesStation SessionMatchesRegistration ClearEmpties
 POSTCONDITION Post
